@@ -51,7 +51,6 @@ Definition vars_seen_ok (c_seen : option (list (name * jv))) (model : option (li
   | Some _, None => false
   end.
 
-Definition gerr_eqb (a b : gerr) : bool := path_eqb (e_path a) (e_path b) && nlist_eqb (e_nodes a) (e_nodes b).
 
 Fixpoint remove_first {A} (eqb : A -> A -> bool) (x : A) (l : list A) : option (list A) :=
   match l with
@@ -69,10 +68,13 @@ Fixpoint multiset_eqb {A} (eqb : A -> A -> bool) (a b : list A) : bool :=
                end
   end.
 
+(* the locations of an error are the starts of the merged occurrences; their order is not constrained *)
+Definition gerr_eqb (a b : gerr) : bool := path_eqb (e_path a) (e_path b) && multiset_eqb N.eqb (e_nodes a) (e_nodes b).
+
 Definition call_eqb (a b : call) : bool :=
   path_eqb (c_path a) (c_path b) && String.eqb (c_parent a) (c_parent b) &&
   String.eqb (c_field a) (c_field b) && rv_eqb (c_source a) (c_source b) &&
-  jv_eqb (JObj (c_args a)) (JObj (c_args b)) && nlist_eqb (c_nodes a) (c_nodes b).
+  jv_eqb (JObj (c_args a)) (JObj (c_args b)) && multiset_eqb N.eqb (c_nodes a) (c_nodes b).
 
 Definition data_eqb (a b : option resp) : bool :=
   match a, b with
